@@ -22,8 +22,8 @@ txt = f'''
 Each change compiles, keeps the 3542 tests green, and comes with a demonstration that fails with it and
 passes without it (confirmed with `tools/seedeval.sh`). Batches 1-4 were written against the property text alone;
 batches 5-15 ("hard mode") were additionally told what a property-based harness of this kind generates and asked for a
-change it would plausibly miss - the description grew with every batch; batches 16-18 (C10g, C14h; C11h, C13h, C16i; C08h, C12h) were run against the
-checks as frozen at the end of batch 15 - six caught as built, C11h (a word-wise big-number comparison that is wrong
+change it would plausibly miss - the description grew with every batch; batches 16-19 (C10g, C14h; C11h, C13h, C16i; C08h, C12h; C03i, C18i) were run against the
+checks as frozen at the end of batch 15 - eight caught as built, C11h (a word-wise big-number comparison that is wrong
 only from 39 equal-length digits with the difference in the leading ones) caught after `gen.LongRunFamily` was added
 (C10 and C11 quick then silent on the unchanged tree at seeds 1-5, 7-20 and 42). `tools/selftest.sh` re-applies every patch
 in a scratch worktree and runs the quick check of the targeted property and of the properties listed under
